@@ -62,6 +62,8 @@ def profiles_small(n):
     own = [(t, ns, 1 << (5 * i)) for i, (t, ns) in enumerate(
         [(t, ns) for t in (POINT, PATH, AREA, RELATION) for ns in (NS_A, NS_M, NS_Z)])]
     p["singletons"] = table(own[:n])
+    # nine-byte deltas whose running sum crosses 2^63 in the middle of the list (unsigned vs signed comparisons)
+    p["cross63"] = table([(RELATION, NS_M, 3 + r * ((1 << 60) + (1 << 58))) for r in range(n)])
     if n >= 12:
         # ranks 1..8 fill a block exactly (1 + 7*9 = 64), then the namespace changes at the block boundary
         p["switch-at-exact-end"] = table([(POINT, NS_A, 0)] + [(POINT, NS_A, 5 + (r - 1) * STEP56) for r in range(1, 9)] +
@@ -82,6 +84,8 @@ def profiles_long(n):
     p["exact-mix"] = table([(POINT, NS_A, 0)] + [(POINT, NS_A, 5 + (r - 1) * STEP56) for r in range(1, 9)] +
                            [(POINT, NS_M, TWO63 + (r - 9) * STEP56) for r in range(9, 16)] +
                            [(PATH, NS_M, 3 + (r - 16) * STEP56) for r in range(16, n - 1)] + [(COLLECTION, NS_Z, MAXU)])
+    # nine-byte deltas, values cross 2^63 in the second block
+    p["cross63"] = table([(RELATION, NS_M, 3 + r * ((1 << 59) + (1 << 57))) for r in range(n)])
     # 2-byte deltas: everything in one block
     p["small"] = table([(RELATION, NS_D, 1000 * (r + 1)) for r in range(n)])
     # eight groups, some singletons, mixed widths
